@@ -142,6 +142,13 @@ PER_FILE = {"method": 1000, "impl": 600, "type": 200, "module": 200, "mod+method
 METHOD = "        pub fn %s(w: &mut DiplomatWrite) {}"
 
 
+# the kind of the type carrying (type placement) or inheriting (module placement) the attribute rotates with the case index, so
+# every kind meets a quarter of the formulas: attributes are lowered by one routine per kind (lower_opaque / _struct / _enum / _out_struct)
+KINDS = ("opaque", "struct", "enum", "out")
+KIND_ATTR = {"opaque": "#[diplomat::opaque]", "out": "#[diplomat::out]"}
+KIND_DECL = {"opaque": "pub struct %s;", "struct": "pub struct %s { pub a: u8 }", "enum": "pub enum %s { A, B }", "out": "pub struct %s { pub a: u8 }"}
+
+
 def _letters(h):
     return chr(65 + h // 26) + chr(97 + h % 26)
 
@@ -195,9 +202,11 @@ def emit(placement, payload, idxs, cond):
     elif placement in ("type", "type+method"):
         out.append("#[diplomat::bridge]\nmod ffi {")
         for i in idxs:
-            out.append("    #[diplomat::opaque]")
+            kind = KINDS[i % 4] if placement == "type" else "opaque"
+            if kind in KIND_ATTR:
+                out.append("    " + KIND_ATTR[kind])
             al(i, "i" if placement == "type" else "o", "    ")
-            out.append("    pub struct Zq7T%04d;\n    impl Zq7T%04d {" % (i, i))
+            out.append("    %s\n    impl Zq7T%04d {" % (KIND_DECL[kind] % ("Zq7T%04d" % i), i))
             if placement == "type+method":
                 al(i, "i", "        ")
             out.append(METHOD % (("zq7_u_%04d" if placement == "type" else "zq7_m_%04d") % i))
@@ -207,11 +216,14 @@ def emit(placement, payload, idxs, cond):
         for i in idxs:
             out.append("#[diplomat::bridge]")
             al(i, "i" if placement == "module" else "o", "")
-            out.append("mod zq7mod_%04d {\n    #[diplomat::opaque]" % i)
+            kind = KINDS[i % 4] if placement == "module" else "opaque"
+            out.append("mod zq7mod_%04d {" % i)
+            if kind in KIND_ATTR:
+                out.append("    " + KIND_ATTR[kind])
             if placement == "mod+type":
                 al(i, "i", "    ")
             tn = ("Zq7T%04d" if placement == "mod+type" else "Zq7G%04d") % i
-            out.append("    pub struct %s;\n    impl %s {" % (tn, tn))
+            out.append("    %s\n    impl %s {" % (KIND_DECL[kind] % tn, tn))
             if placement == "mod+method":
                 al(i, "i", "        ")
             out.append(METHOD % (("zq7_m_%04d" if placement == "mod+method" else "zq7_u_%04d") % i))
